@@ -501,17 +501,18 @@ struct StepOut {
     tracks: Vec<String>,
     notes: usize,
     order: Vec<u64>,
+    w0: (u64, u64, u64), // invocation counters when the operation proper starts (after the build phase of ME / MN)
     extra: String, // ,"ext":{..} / ,"direct":{..}
 }
 
 impl StepOut {
     fn new(tag: u64) -> Self {
-        StepOut { tag, code: (0, 0), ids: vec![], status: vec![], tracks: vec![], notes: 0, order: vec![], extra: String::new() }
+        StepOut { tag, code: (0, 0), ids: vec![], status: vec![], tracks: vec![], notes: 0, order: vec![], w0: (0, 0, 0), extra: String::new() }
     }
     fn json(&self, after: &str) -> String {
         let st: Vec<String> = self.status.iter().map(|(i, s)| format!("[{},{}]", i, s)).collect();
         format!(
-            "{{\"r\":[{},{},{}],\"ids\":{},\"status\":{},\"tracks\":{},\"n\":{},\"order\":{}{}{}}}",
+            "{{\"r\":[{},{},{}],\"ids\":{},\"status\":{},\"tracks\":{},\"n\":{},\"order\":{},\"w0\":[{},{},{}]{}{}}}",
             self.tag,
             self.code.0,
             self.code.1,
@@ -520,6 +521,9 @@ impl StepOut {
             jlist(&self.tracks),
             self.notes,
             jnums(&self.order),
+            self.w0.0,
+            self.w0.1,
+            self.w0.2,
             self.extra,
             after
         )
@@ -638,6 +642,10 @@ fn run_store(s: &Script, plan: &(Vec<u64>, Vec<u64>, Vec<u64>)) -> (String, Vec<
                     Ok(t) => {
                         out = StepOut::new(2);
                         world().log.clear();
+                        {
+                            let w = world();
+                            out.w0 = (w.na, w.nm, w.no);
+                        }
                         out.extra = format!(",\"nb\":{}", notes.load(Ordering::SeqCst) - n0);
                         let d = store.get_store(*dst as usize).get(dst).cloned();
                         if let Some(d) = &d {
@@ -689,6 +697,9 @@ fn run_store(s: &Script, plan: &(Vec<u64>, Vec<u64>, Vec<u64>)) -> (String, Vec<
         }
         out.notes = notes.load(Ordering::SeqCst) - n0;
         out.order = world().log.clone();
+        if out.w0 == (0, 0, 0) {
+            out.w0 = *counters.last().unwrap();
+        }
         let shards = dump_shards(&store, s.shards, &notes);
         steps.push(out.json(&format!(",\"shards\":{}", shards)));
     }
@@ -744,6 +755,7 @@ fn run_track(s: &Script, plan: &(Vec<u64>, Vec<u64>, Vec<u64>)) -> (String, Vec<
         }
         out.notes = notes.load(Ordering::SeqCst) - n0;
         out.order = world().log.clone();
+        out.w0 = *counters.last().unwrap();
         if let Some(r) = written {
             out.tracks.push(dump_track(&regs[&r], &notes));
         }
